@@ -188,15 +188,24 @@ func (r *cwRig) streamHandler(kind string, s grpc.ServerStream) error {
 		}
 	}
 	h := &cwHandler{c: c, cmd: make(chan HOp), ctx: s.Context()}
+	cz := coqZ(int64(c))
 	r.mu.Lock()
-	if _, dup := r.handlers[c]; dup {
-		// a second handler for the same call index (a re-opened id): keep the first under c, file this one away
+	_, dup := r.handlers[c]
+	stray := dup || c < 0
+	if stray {
+		// an invocation no program was written for (a second handler on an id, an envelope without call index):
+		// the empty program - it returns at once
+		h.returned = true
 		r.handlers[1000+len(r.handlers)] = h
 	} else {
 		r.handlers[c] = h
 	}
 	r.mu.Unlock()
-	r.hev(fmt.Sprintf("HStarted %d", c))
+	r.hev(fmt.Sprintf("HStarted %s", cz))
+	if stray {
+		r.hev(fmt.Sprintf("HReturn %s", cz))
+		return nil
+	}
 	for {
 		op, ok := <-h.cmd
 		if !ok {
@@ -210,25 +219,25 @@ func (r *cwRig) streamHandler(kind string, s grpc.ServerStream) error {
 			var m wrapperspb.BytesValue
 			err := s.RecvMsg(&m)
 			if err == nil {
-				r.hev(fmt.Sprintf("HRecv %d (HMsg %s)", c, coqZ(tokenOf(m.Value))))
+				r.hev(fmt.Sprintf("HRecv %s (HMsg %s)", cz, coqZ(tokenOf(m.Value))))
 			} else {
-				r.hev(fmt.Sprintf("HRecv %d (HErr %s)", c, herrClass(err)))
+				r.hev(fmt.Sprintf("HRecv %s (HErr %s)", cz, herrClass(err)))
 			}
 		case "send":
 			err := s.SendMsg(bv(payloadOf(op.B)))
-			r.hev(fmt.Sprintf("HSend %d %s", c, herrClass(err)))
+			r.hev(fmt.Sprintf("HSend %s %s", cz, herrClass(err)))
 		case "sendheader":
 			err := s.SendHeader(mdMD(op.B))
-			r.hev(fmt.Sprintf("HSendHeader %d %s", c, herrClass(err)))
+			r.hev(fmt.Sprintf("HSendHeader %s %s", cz, herrClass(err)))
 		case "setheader":
 			err := s.SetHeader(mdMD(op.B))
-			r.hev(fmt.Sprintf("HSetHeader %d %s", c, herrClass(err)))
+			r.hev(fmt.Sprintf("HSetHeader %s %s", cz, herrClass(err)))
 		case "settrailer":
 			s.SetTrailer(mdMD(op.B))
-			r.hev(fmt.Sprintf("HSetTrailer %d", c))
+			r.hev(fmt.Sprintf("HSetTrailer %s", cz))
 		case "await":
 			<-s.Context().Done()
-			r.hev(fmt.Sprintf("HAwaited %d", c))
+			r.hev(fmt.Sprintf("HAwaited %s", cz))
 		case "return":
 			var err error
 			if op.Ctx {
@@ -243,7 +252,7 @@ func (r *cwRig) streamHandler(kind string, s grpc.ServerStream) error {
 			h.returned = true
 			h.busy = false
 			r.mu.Unlock()
-			r.hev(fmt.Sprintf("HReturn %d", c))
+			r.hev(fmt.Sprintf("HReturn %s", cz))
 			return err
 		}
 		r.mu.Lock()
@@ -730,7 +739,7 @@ func (r *cwRig) snapshot() (stepObs, cwSrvObs) {
 		if h.returned {
 			continue
 		}
-		hctx = append(hctx, fmt.Sprintf("(%d, %s)", h.c, coqBool(h.ctx.Err() != nil)))
+		hctx = append(hctx, fmt.Sprintf("(%s, %s)", coqZ(int64(h.c)), coqBool(h.ctx.Err() != nil)))
 	}
 	serveRet := r.serveRet
 	r.mu.Unlock()
